@@ -11,6 +11,8 @@
   checked on the implementation, not proved here.
 -/
 import EnvVerif.Lemmas.AssembleLemmas
+import EnvVerif.Lemmas.CollectionLemmas
+import EnvVerif.Props.C05
 namespace EnvVerif
 open Env AW
 
@@ -225,5 +227,76 @@ example : exSubj.isNode = false ∧ ∃ e', addAssertionEnvelope hLen exSubj exA
   rw [this]
   exact ⟨_, add_rebuild hLen (Or.inl rfl) (by simp [exA1, newAssertion, slotOk, isSubjectAssertion])⟩
 end Examples
+
+
+/-! ### "Equal input values - including unordered collections (sets, maps) used as subject, predicate or object -
+always produce equal digests and bytes"
+
+A `HashSet` / `HashMap` (and dcbor's own `Set` / `Map`) reaches the envelope as a leaf whose CBOR is built by
+inserting the entries, in whatever order the collection yields them, into dcbor's map ordered by encoded key
+(Model/Collections.lean).  The theorems say that the order and the number of insertions cannot show. -/
+
+section Collections
+variable (h : Hash)
+
+/-- **sets**: two sequences of valid elements with the same members - any order, any repetition - give the
+identical leaf envelope (hence equal digests and equal bytes, wherever it is used) -/
+theorem c07_set_leaf_order_independent (xs ys : List Cbor) (vx : Cbor.ValidList xs) (vy : Cbor.ValidList ys)
+    (hm : ∀ x, x ∈ xs ↔ x ∈ ys) : newSetLeaf h xs = newSetLeaf h ys := by
+  simp only [newSetLeaf, setCbor_ext xs ys vx vy hm]
+
+/-- in particular a permutation of the elements -/
+theorem c07_set_leaf_perm (xs ys : List Cbor) (vx : Cbor.ValidList xs) (hp : xs.Perm ys) :
+    newSetLeaf h xs = newSetLeaf h ys := by
+  have vy : Cbor.ValidList ys := by
+    rw [validList_iff] at vx ⊢
+    intro y hy; exact vx y (hp.mem_iff.mpr hy)
+  exact c07_set_leaf_order_independent h xs ys vx vy (fun x => hp.mem_iff)
+
+/-- **maps**: two sequences of entries with the same members, neither holding two different entries under one
+encoded key (a `HashMap` has one entry per key), give the identical leaf envelope -/
+theorem c07_map_leaf_order_independent (l₁ l₂ : List (Cbor × Cbor)) (c₁ : Coh l₁) (c₂ : Coh l₂)
+    (hm : ∀ p, p ∈ l₁ ↔ p ∈ l₂) : newMapLeaf h l₁ = newMapLeaf h l₂ := by
+  simp only [newMapLeaf, mapCbor, mapOfList_ext l₁ l₂ c₁ c₂ hm]
+
+/-- entries with pairwise different valid keys (what a `HashMap` holds) satisfy the hypothesis -/
+theorem coh_of_distinct_keys (l : List (Cbor × Cbor)) (hv : Cbor.ValidPairs l)
+    (hk : ∀ p q, p ∈ l → q ∈ l → p.1 = q.1 → p = q) : Coh l := by
+  rw [validPairs_iff] at hv
+  intro p q hp hq he
+  exact hk p q hp hq (enc_injective_of_valid _ _ (hv p hp).1 (hv q hq).1 he)
+
+/-- equal envelopes have equal digests and bytes (stated for the record: the conclusions above are equalities of
+`Env` terms, which carry both) -/
+theorem c07_set_leaf_digest_bytes (xs ys : List Cbor) (vx : Cbor.ValidList xs) (vy : Cbor.ValidList ys)
+    (hm : ∀ x, x ∈ xs ↔ x ∈ ys) :
+    (newSetLeaf h xs).digest = (newSetLeaf h ys).digest ∧ encode (newSetLeaf h xs) = encode (newSetLeaf h ys) := by
+  rw [c07_set_leaf_order_independent h xs ys vx vy hm]; exact ⟨rfl, rfl⟩
+
+/-- the collection leaves are dCBOR values: they decode back from their bytes to the identical envelope -/
+theorem c07_set_leaf_roundtrip (xs : List Cbor) (vx : Cbor.ValidList xs) (hl : xs.length < 2 ^ 64) :
+    decode h (encode (newSetLeaf h xs)) = .ok (newSetLeaf h xs) :=
+  decode_encode_leaf h _ (setCbor_valid xs vx hl)
+
+theorem c07_map_leaf_roundtrip (kvs : List (Cbor × Cbor)) (hv : Cbor.ValidPairs kvs) (hl : kvs.length < 2 ^ 64) :
+    decode h (encode (newMapLeaf h kvs)) = .ok (newMapLeaf h kvs) :=
+  decode_encode_leaf h _ (mapCbor_valid kvs hv hl)
+
+/-- the stored entries are strictly ascending by encoded key whatever the insertion order (the canonical form the
+decoder demands) -/
+theorem c07_map_entries_ascending (kvs : List (Cbor × Cbor)) : Cbor.KeysAsc (Cbor.keysEnc (mapOfList kvs)) :=
+  asc_mapOfList kvs
+
+/- non-vacuity: three insertion orders of {1, "a", 2} with a repetition -/
+example : setCbor [.uint 2, .text [97], .uint 1, .uint 2] = setCbor [.uint 1, .uint 2, .text [97]] := by
+  apply setCbor_ext
+  · simp [Cbor.ValidList, Cbor.Valid, Cbor.utf8Valid]
+  · simp [Cbor.ValidList, Cbor.Valid, Cbor.utf8Valid]
+  · intro x; simp only [List.mem_cons, List.not_mem_nil, or_false]
+    constructor
+    · rintro (h | h | h | h) <;> simp [h]
+    · rintro (h | h | h) <;> simp [h]
+
+end Collections
 
 end EnvVerif
